@@ -105,6 +105,44 @@ def in_domain_bin(op, a, b, b_is_int_const):
 #   refs: ["obj", id] | ["const", number] | ["pair", v, e] (a (value, error) tuple operand: creates a measurement)
 # every step creates exactly one NEW object except a "pair" operand, which creates one more before it.
 
+NUMBER_TYPES = ["np.float64", "np.float32", "np.int64", "np.int8", "np.int32", "Fraction", "np.float16", "bool"]
+
+
+def typed_number(x, tag):
+    """the number x (exactly representable in the tagged type) as an object of that type; None: as it is"""
+    if tag is None:
+        return x
+    import numpy as np
+    if tag == "Fraction":
+        return Fraction(x)
+    if tag == "bool":
+        return bool(x)
+    return getattr(np, tag[3:])(x)
+
+
+def number_tag(rng, c):
+    """a type in which the constant c is exactly representable (or None: plain int / float)"""
+    if rng.random() > 0.2:
+        return None
+    import numpy as np
+    cands = []
+    for tag in NUMBER_TYPES:
+        try:
+            if tag == "bool":
+                ok = c in (0, 1)
+            elif tag == "Fraction":
+                ok = True
+            elif "int" in tag:
+                ok = float(c).is_integer() and abs(c) < 100
+            else:
+                ok = float(getattr(np, tag[3:])(c)) == float(c)
+        except (OverflowError, ValueError):
+            ok = False
+        if ok:
+            cands.append(tag)
+    return rng.choice(cands) if cands else None
+
+
 class World:
     """executes a program on the implementation, keeping python objects by model id"""
 
@@ -126,7 +164,7 @@ class World:
         if ref[0] == "obj":
             return self.objs[ref[1]], ["obj", ref[1]], None
         if ref[0] == "const":
-            return ref[1], ["const", ref[1]], None
+            return typed_number(ref[1], ref[2] if len(ref) > 2 else None), ["const", ref[1]], None
         if ref[0] == "pair":
             return (ref[1], ref[2]), None, ("meas", float(ref[1]), float(ref[2]))
         raise ValueError(ref)
@@ -206,6 +244,7 @@ def gen_program(rng, n_meas=None, n_ops=None, rational_only=False, allow_pairs=T
     n_ops = n_ops or rng.randrange(1, 9)
     steps, vals, kinds = [], [], []      # vals: float value of each object id
     hidden = set()                       # intermediate results the harness holds no reference to
+    small_scale = rng.random() < 0.12    # every uncertainty of the program far below any absolute tolerance (1e-8 ...)
     for _ in range(n_meas):
         v = dyadic(rng, -3, 8)
         if abs(v) < 0.25:
@@ -217,6 +256,8 @@ def gen_program(rng, n_meas=None, n_ops=None, rational_only=False, allow_pairs=T
         e = rng.choice([0.0, 0.125, 0.25, 0.5, 0.0625, 1.0, dyadic(rng, -4, 1) ** 2])
         if rng.random() < 0.1:
             e = rng.choice([2.0 ** -14, 2.0 ** -17, 3 * 2.0 ** -16, 2.0 ** -20])   # small against every absolute tolerance
+        if small_scale and e > 0:
+            e = rng.choice([2.0 ** -14, 2.0 ** -15, 3 * 2.0 ** -16, 5 * 2.0 ** -17])
         steps.append(["meas", v, abs(e)])
         vals.append(v)
         kinds.append("meas")
@@ -282,10 +323,12 @@ def gen_program(rng, n_meas=None, n_ops=None, rational_only=False, allow_pairs=T
             ra, rb, a, b = ["obj", i], ["obj", j], vals[i], vals[j]
         elif form == "oc":
             c = const()
-            ra, rb, a, b = ["obj", i], ["const", c], vals[i], c
+            tag = number_tag(rng, c)
+            ra, rb, a, b = ["obj", i], (["const", c, tag] if tag else ["const", c]), vals[i], c
         elif form == "co":
             c = const()
-            ra, rb, a, b = ["const", c], ["obj", j], c, vals[j]
+            tag = number_tag(rng, c)
+            ra, rb, a, b = (["const", c, tag] if tag else ["const", c]), ["obj", j], c, vals[j]
         elif form == "op":
             p = pair()
             ra, rb, a, b = ["obj", i], p, vals[i], p[1]
